@@ -73,7 +73,12 @@ func (ur *usageTracker) NewReport(serviceName, version, hostname string, now tim
 	if err != nil {
 		return nil, err
 	}
-	// clear the current data points and keep the last data points until we know the report was sent
+	// clear the current data points and keep everything in this report until we know it was sent:
+	// the data points of the previous report that are still unconfirmed are part of this report
+	// too, so fold them in instead of dropping them
+	for signal, usage := range ur.lastDataPoints {
+		ur.currentDataPoints[signal] += usage
+	}
 	ur.lastDataPoints = ur.currentDataPoints
 	ur.currentDataPoints = make(map[usageSignal]float64)
 	return data, nil
